@@ -210,9 +210,7 @@ func genStorage(p *pkgInfo) string {
 		if m.decl.Body == nil {
 			continue
 		}
-		if !ast.IsExported(name) && !baselineFuncs[funcKey(m.decl)] {
-			continue // a helper introduced since the pinned source: its statements were inlined where it is called (inline.go)
-		}
+		// (a helper that inline.go inlined everywhere is gone from the package; one it could not inline is listed under its own name)
 		if s := normalizeSites(storageSitesOf(m.decl.Body), m.decl.Body, m.recvName); len(s) > 0 {
 			es = append(es, entry{"list." + name, s})
 		}
@@ -223,10 +221,17 @@ func genStorage(p *pkgInfo) string {
 	}
 	sort.Strings(fnames)
 	for _, n := range fnames {
-		if !ast.IsExported(n) && !baselineFuncs[funcKey(p.funcs[n])] {
+		raw := storageSitesOf(p.funcs[n].Body)
+		aboutLists := false
+		for _, t := range raw {
+			if strings.Contains(t, "list{") || strings.Contains(t, "[]field") {
+				aboutLists = true // a function that makes a list (the `.val` of an object is a map: not this fingerprint's business)
+			}
+		}
+		if !aboutLists {
 			continue
 		}
-		if s := normalizeSites(storageSitesOf(p.funcs[n].Body), p.funcs[n].Body, ""); len(s) > 0 {
+		if s := normalizeSites(raw, p.funcs[n].Body, ""); len(s) > 0 {
 			es = append(es, entry{n, s})
 		}
 	}
@@ -249,9 +254,10 @@ func genStorage(p *pkgInfo) string {
 // ---------------------------------------------------------------------------------------------
 // Normal form of the fingerprint (rule S2). The statements are compared up to
 //   (a) the names of variables: the receiver is `r`, every other variable is v1, v2, … in order of first appearance in the
-//       function's sites (function names, field names, types and literals stay);
+//       statement (function names, field names, types and literals stay);
 //   (b) temporaries: a site `x := E` whose variable is used exactly once in the whole function, inside a later site, is
 //       substituted there (so `val := make(…); l := &list{val: val}` and `l := &list{val: make(…)}` are one fingerprint);
+//   (d) `x := e` and `var x T = e` read `x = e`; (e) the capacity argument of a three-argument `make` reads `_`;
 //   (c) repetition: a site that repeats an earlier site of the same function is listed once (three switch arms that end in the
 //       same assignment, or one assignment after the switch).
 // None of this is a proof step: the fingerprint only says which storage statements the source has; what they do is the business
@@ -361,21 +367,40 @@ func normalizeSites(sites []string, body *ast.BlockStmt, recv string) []string {
 			}
 		}
 	}
-	// (a) names
-	names := map[string]string{}
-	if recv != "" {
-		names[recv] = "r"
-	}
-	for _, st := range stmts {
-		variableIdents(st, func(id *ast.Ident) {
-			if _, ok := names[id.Name]; !ok {
-				names[id.Name] = fmt.Sprintf("v%d", len(names)+1)
-			}
-		})
-	}
 	var out []string
 	seen := map[string]bool{}
-	for _, st := range stmts {
+	for i, st := range stmts {
+		// (d) a declaration `var x T = e` and a definition `x := e` are the assignment `x = e`
+		if ds, ok := st.(*ast.DeclStmt); ok {
+			if gd, ok := ds.Decl.(*ast.GenDecl); ok && gd.Tok == token.VAR && len(gd.Specs) == 1 {
+				if vs, ok := gd.Specs[0].(*ast.ValueSpec); ok && len(vs.Names) == 1 && len(vs.Values) == 1 {
+					st = &ast.AssignStmt{Lhs: []ast.Expr{vs.Names[0]}, Tok: token.ASSIGN, Rhs: []ast.Expr{vs.Values[0]}}
+					stmts[i] = st
+				}
+			}
+		}
+		if as, ok := st.(*ast.AssignStmt); ok && as.Tok == token.DEFINE {
+			as.Tok = token.ASSIGN
+		}
+		// (e) the capacity argument of a three-argument make is `_`: any capacity will do (the theorems hold for every capacity)
+		ast.Inspect(st, func(x ast.Node) bool {
+			if ce, ok := x.(*ast.CallExpr); ok {
+				if id, ok := ce.Fun.(*ast.Ident); ok && id.Name == "make" && len(ce.Args) == 3 {
+					ce.Args[2] = ast.NewIdent("_")
+				}
+			}
+			return true
+		})
+		// (a) names, statement by statement: the receiver is r, the other variables v1, v2, … in order of appearance
+		names := map[string]string{}
+		if recv != "" {
+			names[recv] = "r"
+		}
+		variableIdents(st, func(id *ast.Ident) {
+			if _, ok := names[id.Name]; !ok {
+				names[id.Name] = fmt.Sprintf("v%d", len(names)+1-map[bool]int{true: 1, false: 0}[recv != ""])
+			}
+		})
 		variableIdents(st, func(id *ast.Ident) { id.Name = names[id.Name] })
 		var b bytes.Buffer
 		if err := printer.Fprint(&b, fs, st); err != nil {
